@@ -139,6 +139,15 @@ CHECKS = {
                      'arbitrary field corruption and producer garbage are checked for memory safety and context reusability only; delimiter-free garbage keeps its cumulative length inside the source (documented validation scope)',
                      'producer + nbWorkers>=1 / long-distance matching: parameter_combination_unsupported or, when the input never reaches the parser, a valid frame made without calling the producer'],
     ),
+    'C18': dict(
+        level='exploration',
+        batches=[dict(scenario='c18train', flavour='P', quick=8000, thorough=400000), dict(scenario='c18train', flavour='A', quick=1600, thorough=60000), dict(scenario='c18train', flavour='T', quick=320, thorough=12000)],
+        rule='one training call per run over a generated sample set (10 set shapes: none, one sample, few tiny, all identical, two-letter alphabet, total below the minimums, one huge + crumbs, typical), capacity 0..112640, algorithm in {trainFromBuffer, cover, optimize_cover, fastCover, optimize_fastCover, legacy, finalizeDictionary, addEntropyTables}, parameter vector with a share outside the documented constraints; optimisers run 2-4 worker threads under the seeded scheduler in 3 runs out of 4; 1 run in 6 fails the k-th (and a later) libc allocation inside the trainer; runs with nbThreads<=1 are executed twice and compared; distinct = distinct plan signature; non-trivial = a dictionary was returned and checked, or an error came out of >=5 samples or an injected fault',
+        real=REAL_COMMON + ['lib/dictBuilder/*.c (cover, fastcover, zdict, divsufsort) and the POOL they run on, unmodified, their threads scheduled by simsched'],
+        stub=['none: loaders, compressor and decompressor used for the usability oracle are the real ones'],
+        assumptions=['"documented no-dictionary result": a return of 0 is accepted for every trainer', 'fastCover f is clamped to 24 by the harness for f in 25..31 (2^f 4-byte counters are legal but exceed the sandbox); f > 31 is passed through as out-of-contract',
+                     'a forced dictID is checked for every algorithm that takes ZDICT_params_t', 'round trips: all of the first 40 samples, then every 7th'],
+    ),
 }
 
 def default_root(tier):
